@@ -1,7 +1,5 @@
 package redisemu
 
-import "strings"
-
 func redisGlob(pattern, candidate []rune) bool {
 
 	if pattern == nil {
@@ -32,8 +30,13 @@ func redisGlob(pattern, candidate []rune) bool {
 
 			return false
 		} else if patCh == '[' {
-			var patSet strings.Builder
 			patPos++
+			negate := false
+			if patPos < len(pattern) && pattern[patPos] == '^' {
+				negate = true
+				patPos++
+			}
+			matched := false
 			for patPos < len(pattern) {
 				letter := pattern[patPos]
 				if letter == ']' {
@@ -42,11 +45,28 @@ func redisGlob(pattern, candidate []rune) bool {
 				}
 				if letter == '\\' && patPos+1 < len(pattern) {
 					patPos++
+					if pattern[patPos] == candidate[i] {
+						matched = true
+					}
+					patPos++
+				} else if patPos+2 < len(pattern) && pattern[patPos+1] == '-' {
+					// a range such as a-z
+					lo, hi := letter, pattern[patPos+2]
+					if lo > hi {
+						lo, hi = hi, lo
+					}
+					if candidate[i] >= lo && candidate[i] <= hi {
+						matched = true
+					}
+					patPos += 3
+				} else {
+					if letter == candidate[i] {
+						matched = true
+					}
+					patPos++
 				}
-				patSet.WriteRune(pattern[patPos])
-				patPos++
 			}
-			if !strings.ContainsRune(patSet.String(), candidate[i]) {
+			if matched == negate {
 				return false
 			}
 		} else if patCh == '\\' && patPos+1 < len(pattern) {
